@@ -164,7 +164,10 @@ def run_path(ex: Exec, ct: Contract, fi: FuncInfo) -> str:
         check_normal_exit(ex, ct, fi, result)
         return "return"
     except PyRaise as e:
-        check_exceptional_exit(ex, ct, fi, e.exc)
+        try:
+            check_exceptional_exit(ex, ct, fi, e.exc)
+        except PathEnd:
+            pass  # the exit itself is the (recorded) failed obligation: nothing further to check on this path
         return "raise:" + e.exc.cls
     except PathEnd:
         return "end"
@@ -288,3 +291,33 @@ def check_frame(ex: Exec, ct: Contract, fi: FuncInfo):
         g0 = ex.entry_frame.globals_.get(name)
         if g0 is not None and not z3.eq(g.t, g0.t):
             ctx.oblige(f"frame:{q}:global.{name}", ex.eq_same(g.ty, g.t, g0.t), kind="frame", line=fi.lineno)
+
+
+# ---------------------------------------------------------------------------------------------------------------
+# Isolation: every function is symbolically executed in its own child process, forked from a parent that has only built the
+# registry.  The solver-visible text of an obligation (names, declaration order) and the path pruning therefore do not depend on
+# which other functions were verified before it in the same run: `./check C08`, `./check C15` and `./check floor` produce the same
+# obligations for a function they share.  The child hands back plain data (SMT-LIB text), not z3 objects.
+_REG = None
+
+
+def _isolated(q):
+    from .solve import to_records
+
+    fr = verify_function(_REG, q)
+    fr.obligations = to_records(fr.obligations)
+    return fr
+
+
+def verify_many(reg: Registry, qualnames: list[str], procs: int | None = None) -> dict:
+    import multiprocessing as mp
+    import os
+
+    global _REG
+    _REG = reg
+    if not qualnames:
+        return {}
+    procs = procs or min(16, os.cpu_count() or 4, len(qualnames))
+    with mp.get_context("fork").Pool(procs, maxtasksperchild=1) as pool:
+        res = pool.map(_isolated, list(qualnames), chunksize=1)
+    return dict(zip(qualnames, res))
